@@ -21,6 +21,8 @@ func init() {
 }
 
 func runC14(c *Ctx) {
+	c.R.Rule("RS-no-request-time-state", "request handling writes no state that outlives the request (package-level variables, objects built at start-up, constructor variables captured by handlers) declared in the packages implementing this property", 1)
+	runStateless(c, "RS-no-request-time-state", "providers", "pkg/providers", "pkg/requests")
 	r := c.R
 	r.Rule("R1-callback", "save only with redeemCode err==nil and enrichSessionState==nil; redeemCode non-nil => Redeem err==nil", 2)
 	r.Rule("R2-refresh-error", "a failed refresh keeps the session only by validateSession's verdict (C12.R4)", 4)
